@@ -110,4 +110,8 @@ example :
     (run (initSt 3) ([2, 0, 1].map (fun i => (i, ins i)))).out
       = some (.tuple [.value ⟨10, true⟩, .value ⟨11, true⟩, .value ⟨12, true⟩]) := by decide
 
+/-- (futures/zip.py, regenerated) `handle_done` takes its whole decision in ONE section on the zipper's lock - which is why a
+completion order exists to fold over - and performs the writes it decided outside the lock; callback i is registered on input i. -/
+theorem C15_source_facts : K6.handleDoneGlue = true := by decide
+
 end MoreExec.Zipper
